@@ -6,6 +6,7 @@
   per line.  Only this file does I/O; everything it calls is the model under `GherkinVerif/`.
 -/
 import GherkinVerif.Model.Stream
+import GherkinVerif.Model.Md
 import GherkinVerif.Gen.ParserTable
 import GherkinVerif.Gen.Dialects
 import GherkinVerif.Gen.Grammar
@@ -132,6 +133,16 @@ def handle (op : String) (as : List (List Nat)) : J :=
           ("accepts", .bool (acceptsAbs T ks)),
           ("events", match eventsAbs T ks with | some es => .arr (es.map evJ) | none => .null),
           ("errors", .arr ((errorsAbs T 0 0 (ks ++ [.EOF])).map J.num))]
+  | "mdmatch" =>
+    -- kind | dialect | line
+    match MState.init D (arg as 1) with
+    | some μ =>
+      let t : Token := { line := some (arg as 2), lineNo := 1 }
+      match Md.matchLine (Kind.fromNat (num as 0)) μ t (arg as 2) with
+      | some (some t') => .obj [("res", .str (lit "matched")), ("token", t'.toJ)]
+      | some none => .obj [("res", .str (lit "no"))]
+      | none => .obj [("res", .str (lit "not-modelled"))]
+    | none => .obj [("crash", .str (lit "no such dialect"))]
   | "dialects" =>
     .arr (D.map fun d => .obj [("name", .str d.name),
       ("and", .arr (d.and_.map J.str)), ("background", .arr (d.background.map J.str)),
